@@ -11,7 +11,7 @@ Proof. unfold linv, l_start; cbn. repeat split; try discriminate; try tauto. Qed
 Lemma linv_step s o : linv s -> linv (fst (lstep s o)).
 Proof.
   destruct s as [i t h r]. unfold linv. cbn [l_init l_tag l_handle l_running]. intros [Hi [Ht Hh]]. subst t h.
-  destruct o as [c| | | | | | | | ]; cbn [lstep l_init]; destruct i; cbn [fst l_init l_tag l_handle l_running];
+  destruct o as [c| | | |hi| | | | ]; cbn [lstep l_init]; destruct i; cbn [fst l_init l_tag l_handle l_running];
     repeat split; try reflexivity; try discriminate; try (apply Hi); try tauto; try (intros _; discriminate); try (intro H; exfalso; now apply H).
 Qed.
 
@@ -24,16 +24,18 @@ Proof.
   apply H, linv_start.
 Qed.
 
-(* logging in any reachable state goes to the live configuration's sink or to the console - and to the
-   console exactly when no configuration is live *)
-Theorem log_goes_somewhere ops o : o = OLog \/ o = OWrite ->
+(* logging in any reachable state goes to the live configuration's sink (unless that configuration's level range drops it)
+   or to the console - and to the console, whatever the level, exactly when no configuration is live *)
+Theorem log_goes_somewhere ops hi :
   let s := fst (lrun l_start ops) in
-  snd (lstep s o) = match l_running s with Some c => ToConfig c | None => ToConsole end /\
-  (l_init s = false -> snd (lstep s o) = ToConsole).
+  snd (lstep s (OLog hi)) = match l_running s with Some c => if accepts c hi then ToConfig c else Filtered | None => ToConsole end /\
+  snd (lstep s OWrite) = match l_running s with Some c => ToConfig c | None => ToConsole end /\
+  (l_init s = false -> snd (lstep s (OLog hi)) = ToConsole /\ snd (lstep s OWrite) = ToConsole).
 Proof.
-  intros Ho s. destruct (linv_reachable ops) as [Hi [Ht Hh]]. fold s in Hi, Ht, Hh.
-  destruct Ho as [-> | ->]; cbn [lstep snd]; [rewrite Ht|rewrite Hh]; (split; [reflexivity|]);
-    intro Hf; destruct (l_running s) eqn:E; try reflexivity; exfalso; assert (l_init s = true) by (apply Hi; discriminate); congruence.
+  intros s. destruct (linv_reachable ops) as [Hi [Ht Hh]]. fold s in Hi, Ht, Hh.
+  cbn [lstep snd]. rewrite Ht, Hh. split; [reflexivity|]. split; [reflexivity|].
+  intro Hf. destruct (l_running s) eqn:E; [|split; reflexivity].
+  exfalso. assert (l_init s = true) by (apply Hi; discriminate). congruence.
 Qed.
 
 Theorem second_refresh_rejected ops c : let s := fst (lrun l_start ops) in
@@ -54,8 +56,8 @@ Qed.
 Theorem destroy_then_refresh_routes s c :
   let s1 := fst (lstep s ODestroy) in
   lstep s1 (ORefresh c) = ({| l_init := true; l_tag := Some c; l_handle := Some c; l_running := Some c |}, RefreshOk) /\
-  snd (lstep (fst (lstep s1 (ORefresh c))) OLog) = ToConfig c /\ snd (lstep (fst (lstep s1 (ORefresh c))) OWrite) = ToConfig c.
-Proof. cbn [lstep]. destruct (l_init s) eqn:E; cbn; rewrite ?E; cbn; auto. Qed.
+  snd (lstep (fst (lstep s1 (ORefresh c))) (OLog true)) = ToConfig c /\ snd (lstep (fst (lstep s1 (ORefresh c))) OWrite) = ToConfig c.
+Proof. cbn [lstep]. destruct (l_init s) eqn:E; cbn; rewrite ?E; cbn; destruct c; auto. Qed.
 
 Theorem failed_refresh_leaves_no_configuration ops o : o = ORefreshEarly \/ o = ORefreshLate ->
   let s := fst (lrun l_start ops) in
